@@ -424,6 +424,8 @@ with overflow checks. Outcome must be ok/err; `load` outcomes are also compared 
             }
         }
     }
+    // every byte of every predefined one-byte encoding through decode_text / extract_text (shared with C13)
+    super::c13::encoding_sweep(c);
     // fixed regression witnesses (repaired defects); reported through c.witness below
     let witnesses: Vec<(&str, String, &str)> = vec![
         ("F-C04-a", format!("F ASCII85Decode ; {}", hex_tok(b"s8W-\"~>")), "ASCII85 group value overflow"),
